@@ -219,3 +219,82 @@ func HarnessC15Spaceless() {
 }
 
 func c09LetterByte() byte { return verifByte()&0x0f | 0x61 } // 'a'..'o'
+
+// constructs that leave no token of their own - {# comments #} and the markers of a verbatim block -
+// stand between a delimiter and the text beyond them: a '-' marker or a block option acts on the text
+// directly next to the delimiter only (here: the empty text), never across the construct, and never
+// on the body of the verbatim block.  Document: T0 K1 T1 INV T2 K2 T3.
+func HarnessC15Invisible() {
+	w := verifParam("w", 1)
+	tb, ls := verifChoice(2) == 1, verifChoice(2) == 1
+	m := func() bool { return verifChoice(2) == 1 }
+	tag := func() (marked, plain string, l, r, block bool) {
+		l, r = m(), m()
+		o, c, body := "{{", "}}", " v "
+		if verifChoice(2) == 1 {
+			o, c, body, block = "{%", "%}", " if t ", true
+		}
+		mo, mc := o, c
+		if l {
+			mo = o + "-"
+		}
+		if r {
+			mc = "-" + c
+		}
+		marked, plain = mo+body+mc, o+body+c
+		if block {
+			marked += "{% endif %}"
+			plain += "{% endif %}"
+			// the endif directly follows: the text after the unit is "after a block tag" (endif, unmarked)
+			r = false
+		}
+		return
+	}
+	// the outer texts are fixed (the main harness varies them), the two next to the invisible construct vary
+	t0, t1, t2, t3 := "a \t", c15WS(w), c15WS(w), "\n b"
+	k1m, k1p, l1, r1, b1 := tag()
+	k2m, k2p, l2, r2, b2 := tag()
+	inv := "{# c #}"
+	switch verifChoice(5) {
+	case 1:
+		inv = "{% verbatim %}  raw \n{% endverbatim %}"
+	case 2:
+		inv = "{% verbatim %}{% endverbatim %}"
+	case 3:
+		inv = "{% verbatim %}\n{{ v }}\t{% endverbatim %}"
+	case 4:
+		inv = "{# a #}{# b #}"
+	}
+	s0, s1, s2, s3 := t0, t1, t2, t3
+	if l1 {
+		s0 = c15TrimR(s0)
+	} else if b1 && ls {
+		s0 = c15StripSP(s0)
+	}
+	if r1 {
+		s1 = c15TrimL(s1)
+	} else if b1 && tb {
+		s1 = c15StripNL(s1)
+	}
+	if l2 {
+		s2 = c15TrimR(s2)
+	} else if b2 && ls {
+		s2 = c15StripSP(s2)
+	}
+	if r2 {
+		s3 = c15TrimL(s3)
+	} else if b2 && tb {
+		s3 = c15StripNL(s3)
+	}
+	marked := t0 + k1m + t1 + inv + t2 + k2m + t3
+	stripped := s0 + k1p + s1 + inv + s2 + k2p + s3
+	verifObserve("trimblocks", tb)
+	verifObserve("lstripblocks", ls)
+	verifObserve("marked", marked)
+	verifObserve("stripped", stripped)
+	o1, ok1 := c15Render(marked, tb, ls)
+	o2, ok2 := c15Render(stripped, false, false)
+	verifAssert(ok1 && ok2, "both sources must render")
+	verifObserve("out", o1)
+	verifAssert(o1 == o2, "whitespace control reached across a comment or a verbatim marker (or into the verbatim body)")
+}
